@@ -51,6 +51,7 @@ Extraction "model.ml"
   valid_sel
   depths
   greedy_sel
+  greedy_run_ok
   zuck_sel
   fields_len
   rd_bits
